@@ -1132,7 +1132,11 @@ def exec_c16(plan, role="main", order=None):
             if role == "main" and op.get("interrupt") is not None:
                 # estimate of the call's line events (measured: 40-100 per character)
                 k = 1 + int(op["interrupt"] * (100 if op.get("via") in ("run", "run_string", "run_file") else 60) * max(len(text), 8))
+                # the abandoned call runs under other gate definitions than the calls that
+                # follow it (same names, same arguments, other matrices)
+                GS.VARIANT = (op.get("variant", 0) + 1 + (j % 3)) % 4
                 oi = seams.outcome_of(fn, S.clock, budget, inject_at=k)
+                GS.VARIANT = op.get("variant", 0)
                 if oi["kind"] == "interrupt":
                     S.fault("interrupt")
                     S.probe("interrupt_landed_in:" + str(oi.get("where")).split("@")[-1])
